@@ -28,6 +28,8 @@ def srcOps : CoreOps where
   asSlices := Gen.as_slices
   remove := Gen.remove
   makeContiguous := Gen.make_contiguous
+  iterNew := Gen.Iter_new
+  iterOverRange := Gen.Iter_over_range
 
 end CircBuf.Driver
 
